@@ -50,6 +50,7 @@ type Profile struct {
 	NoForeign    bool
 	Preset       bool // allow a preset totals.rounding
 	FixedAtCur   bool // fixed discount/charge/advance amounts at the currency's precision (bases and prices unrestricted)
+	ManyOddFixed bool // two or three document discounts and charges, most of them fixed amounts with 1-3 decimals more than the currency
 }
 
 // Doc is a generated document.
@@ -355,13 +356,20 @@ func (g *G) docDCs(c int, p Profile, specs []comboSpec, feats map[string]bool, p
 	case 1:
 		n = 2
 	}
+	if p.ManyOddFixed {
+		n = 2 + g.rng.IntN(2)
+	}
 	var out []any
 	for i := 0; i < n; i++ {
 		d := map[string]any{}
 		if g.rng.IntN(3) > 0 {
 			d["reason"] = "generated" // (a row given by its figures alone is a row too)
 		}
-		switch k := g.rng.IntN(3); k {
+		k := g.rng.IntN(3)
+		if p.ManyOddFixed && g.rng.IntN(3) > 0 {
+			k = 2
+		}
+		switch k {
 		case 0:
 			d["percent"] = g.percent()
 			feats["doc-dc-percent"] = true
@@ -379,6 +387,10 @@ func (g *G) docDCs(c int, p Profile, specs []comboSpec, feats map[string]bool, p
 			e := c
 			if !p.CurrencyOnly && !p.FixedAtCur && g.chance(3) {
 				e = g.rng.IntN(6)
+				feats["fixed-amount-odd-precision"] = true
+			}
+			if p.ManyOddFixed {
+				e = c + 1 + g.rng.IntN(3)
 				feats["fixed-amount-odd-precision"] = true
 			}
 			d["amount"] = g.amount(maxFor(e, 2000), e, false)
